@@ -5,7 +5,7 @@ C15 - parsing is a pure function of the text: no history or thread effects.
 Reference outcomes (projected tree with positions, or exception type and
 message) of a pool of valid and invalid texts x comment flag are computed in
 a FRESH interpreter.  Then
- (a) every sequential history of three parse calls over the pool (24^3) is
+ (a) every sequential history of three parse calls over the pool (28^3) is
      performed in one process - all histories after one another, so every
      call also has a long prefix of earlier calls;
  (b) every interleaving, at token granularity, of two parses from
@@ -40,10 +40,12 @@ POOL = [
     'function(){}',                   # production error
     'y = 2;  // done\n',              # a comment no later token takes up
     '/* header */ @',                 # lexical error right after a comment
+    'a.if / 2 / g; x.typeof /= y',    # reserved words as property names
+    'o.delete / 2',                   # (decided by a table of the lexer)
 ]
 
-RULE = ('(a) sequential histories of 2 and 3 calls over 12 texts x 2 flags '
-        '(quick: all pairs + 1500 seeded triples; thorough: all 13824 triples), (b) all token-level interleavings of two calls from '
+RULE = ('(a) sequential histories of 2 and 3 calls over 14 texts x 2 flags '
+        '(quick: all pairs + 1500 seeded triples; thorough: all 21952 triples), (b) all token-level interleavings of two calls from '
         'PureCalls.tla for 4 pairs of short texts, (c) thread-pool stress; '
         'one PureTrace record per history.  Non-trivial = the history holds '
         'a failing parse before the last call or two live calls; distinct '
@@ -321,6 +323,6 @@ def main(tier, seed, replay=None):
         raise RuntimeError('PureTrace: %d verdicts for %d records'
                            % (cnt, len(records)))
     rep.cov['distinct_nontrivial'] = len(nontrivial)
-    rep.sample({'sequential_history': [list(calls[c]) for c in (5, 6, 21)]})
+    rep.sample({'sequential_history': [list(calls[c]) for c in (5, 6, 25)]})
     rep.sample({'interleaving': info[len(records) - rounds * 3 - 1][1]})
     return rep.finish(RULE)
